@@ -186,6 +186,8 @@ def check(tier: str, seed: int, t0: float, build: core.BuildStatus) -> int:
                         replay={"kind": "fragment", "backend": be, "query": src, "status": c.status, "detail": str(c.error or c.note)}))
                     continue
                 fraggen.fill_throw_lines(sx, c.qlines)
+                for _nm, _cx in sx:
+                    hist["fragment-column:" + str(_cx[0])] += 1
                 r = model.call("c01.fragrow", [idiom, tree, fill, sx, n0])
                 members = [ln.strip() for ln in c.pkg["slots"]["class_decl"]]
                 same = r[0] == "ok" and r[1] == c.qlines and r[2] == members and r[3] == [f"{a}={b}" for a, b in c.prog[2]]
@@ -241,6 +243,9 @@ def check(tier: str, seed: int, t0: float, build: core.BuildStatus) -> int:
                         replay={"kind": "fragment", "backend": be, "query": src, "status": c.status, "detail": str(c.error or c.note)}))
                     continue
                 fraggen.fill_throw_lines(sx, c.qlines)
+                if kind == "select":
+                    for _nm, _cx in sx[1][1]:
+                        hist["f1-column:" + str(_cx[0])] += 1
                 r = model.call("c01.fragq", [idiom, tree, fill, sx, n0])
                 members = [ln.strip() for ln in c.pkg["slots"]["class_decl"]]
                 token_inits = [ln.strip() for ln in c.pkg["slots"]["book_code"] if "consumes<" in ln]
